@@ -157,6 +157,8 @@ class FormulaExt(Extension):
     def attribute(self, E, ex, base, attr, path, node):
         if ex.k.hints.get('ext') == 'sem':
             return None
+        if base.ty == 'module' and base.x not in ('sys', 'CTLS', 'CTL', 'LTL', 'Lang'):
+            return None
         if base.ty == 'module':
             if base.x == 'sys' and attr == 'modules':
                 return SV('sysmodules')
